@@ -563,6 +563,11 @@ func runRoundTrip(t *testing.T, c *Case, cr *CaseResult) *CaseResult {
 	if cfg.AllWriteFaults {
 		faults = nil
 		for k := 1; k <= total; k++ {
+			// every k for documents up to 48 writes; beyond that the first
+			// 16, the last 8 and every fifth (long chains repeat one shape)
+			if total > 48 && k > 16 && k <= total-8 && k%5 != 0 {
+				continue
+			}
 			faults = append(faults, WriteFault{K: k}, WriteFault{K: k, Sticky: true})
 			if k%3 == 1 {
 				faults = append(faults, WriteFault{K: k, Short: true})
